@@ -97,6 +97,9 @@ VarsOf(p) == Range(p.vars)
 VarNames(p) == {v.n : v \in VarsOf(p)}
 Inputs(p) == {v.n : v \in {w \in VarsOf(p) : w.cls = "VAR_INPUT"}}
 Outputs(p) == {v.n : v \in {w \in VarsOf(p) : w.cls = "VAR_OUTPUT"}}
+InOuts(p) == {v.n : v \in {w \in VarsOf(p) : w.cls = "VAR_IN_OUT"}}
+\* what may stand left of := in a formal invocation: inputs and in-out variables (an in-out variable is bound with :=, never with =>)
+NamedFormals(p) == Inputs(p) \cup InOuts(p)
 Globals(u) == Range(u.config.globals) \cup Range(u.config.rglobals)
 AllVars(u) == UNION {VarsOf(p) : p \in Range(u.pous)} \cup Globals(u)
 Literals == {"TRUE", "FALSE"}
@@ -158,7 +161,7 @@ HasCallee(u, p, s) == \E v \in VarsOf(p) : v.n = s.inst /\ v.ty \in FBNames(u)
 InvocationNoMix(u) == \A p \in Range(u.pous) : \A s \in Calls(p) : s.named = <<>> \/ s.pos = <<>>
 \* P0007  every formally assigned input is an input of the callee
 InputsDeclared(u) == \A p \in Range(u.pous) : \A s \in Calls(p) : HasCallee(u, p, s) =>
-                        \A i \in 1..Len(s.named) : s.named[i][1] \in Inputs(Callee(u, p, s))
+                        \A i \in 1..Len(s.named) : s.named[i][1] \in NamedFormals(Callee(u, p, s))
 \* P0008  a non-formal invocation supplies exactly the inputs of the callee
 PositionalArity(u) == \A p \in Range(u.pous) : \A s \in Calls(p) : (HasCallee(u, p, s) /\ s.pos # <<>> /\ s.named = <<>>) =>
                         Len(s.pos) = Cardinality(Inputs(Callee(u, p, s)))
@@ -243,6 +246,10 @@ GrowTask == "T2" \notin Range(unit.config.tasks) /\ Edit(<<"grow:task">>, [unit 
 InputSeq(p) == SelectSeq(p.vars, LAMBDA v : v.cls = "VAR_INPUT")
 GrowPositionalCall == Edit(<<"grow:positionalcall">>,
                            AddStmtTo(unit, 2, C(NoWrap, "inst", <<>>, [i \in 1..Len(InputSeq(unit.pous[1])) |-> "a"], <<>>)))
+\* an in-out variable of CALLEE, bound by name in a further invocation in CALLER
+GrowInOut == "io1" \notin VarNames(unit.pous[1]) /\
+             Edit(<<"grow:inout">>, AddStmtTo(AddVarTo(unit, 1, V("io1", "VAR_IN_OUT", "-", "INT", NoInit)), 2,
+                                              C(NoWrap, "inst", <<<<"io1", "a">>>>, <<>>, <<>>)))
 GrowEmptyCall == Edit(<<"grow:emptycall">>, AddStmtTo(unit, 2, C(NoWrap, "inst", <<>>, <<>>, <<>>)))
 GrowGlobal == (\A g \in Globals(unit) : g.n # "gw") /\ Edit(<<"grow:global">>, [unit EXCEPT !.config.rglobals = Append(@, V("gw", "VAR_GLOBAL", "-", "BOOL", NoInit))])
 GrowPou == (\A p \in Range(unit.pous) : p.n # "EXTRA") /\ Edit(<<"grow:pou">>, [unit EXCEPT !.pous = Append(@, [n |-> "EXTRA", k |-> "fb",
@@ -315,9 +322,12 @@ PlantUnknownInput == \E c \in CallSites(unit) : LET s == unit.pous[c[1]].body[c[
 PlantArity == \E c \in CallSites(unit), n \in {1, 3} : LET s == unit.pous[c[1]].body[c[2]] IN s.named = <<>> /\ s.pos # <<>> /\
               Edit(<<"plant:PositionalArity", unit.pous[c[1]].n, c[2], n>>,
                    SetStmt(unit, c[1], c[2], [s EXCEPT !.pos = IF n = 1 THEN <<s.pos[1]>> ELSE s.pos \o <<s.pos[1]>>]))
+\* an output formal the callee does not have: a name declared nowhere, or - if the callee has one - the name of an
+\* in-out variable (which is bound with :=, not with =>)
 PlantUnknownOutput == \E c \in CallSites(unit) : LET s == unit.pous[c[1]].body[c[2]] IN
-              Edit(<<"plant:OutputsDeclared", unit.pous[c[1]].n, c[2]>>,
-                   SetStmt(unit, c[1], c[2], [s EXCEPT !.outs = Append(@, <<"nothere", IntVar(unit.pous[c[1]]).n>>)]))
+              \E f \in {"nothere"} \cup InOuts(Callee(unit, unit.pous[c[1]], s)) :
+              Edit(<<"plant:OutputsDeclared", unit.pous[c[1]].n, c[2], f>>,
+                   SetStmt(unit, c[1], c[2], [s EXCEPT !.outs = Append(@, <<f, IntVar(unit.pous[c[1]]).n>>)]))
 PlantUndefinedTask == \E i \in 1..Len(unit.config.progs) : Edit(<<"plant:TaskDefined", unit.config.progs[i].n>>, [unit EXCEPT !.config.progs[i].task = "TX"])
 PlantConstNoInit ==
   \/ \E i \in PouIdx(unit), ty \in {"INT", "LEVEL"} : "nc" \notin VarNames(unit.pous[i]) /\
@@ -330,13 +340,13 @@ PlantExternNotConst ==
   \/ \E i \in {1, 2} : Edit(<<"plant:ExternOfConstIsConst", unit.pous[i].n, "new">>, AddVarTo(unit, i, V("gk", "VAR_EXTERNAL", "-", "INT", NoInit)))
 
 Grow == (("grow" \in EditKinds) /\ (GrowVar \/ GrowConst \/ GrowStmt \/ GrowWrap \/ GrowEnumValue \/ GrowStructElem \/ GrowType \/ GrowTask
-                                     \/ GrowPositionalCall \/ GrowEmptyCall \/ GrowGlobal \/ GrowPou))
+                                     \/ GrowPositionalCall \/ GrowEmptyCall \/ GrowInOut \/ GrowGlobal \/ GrowPou))
 Plant == (("plant" \in EditKinds) /\ (PlantDupStructElem \/ PlantBadSubrange \/ PlantDupEnumValue \/ PlantUndeclaredVar \/ PlantBadEnumInit
                                        \/ PlantBadEnumStmt \/ PlantUnknownType \/ PlantStdlib \/ PlantUnknownInstance \/ PlantMix
                                        \/ PlantUnknownInput \/ PlantArity \/ PlantUnknownOutput \/ PlantUndefinedTask \/ PlantConstNoInit
                                        \/ PlantConstFB \/ PlantExternNotConst))
 
-IsGrow(e) == e[1] \in {"grow:var", "grow:const", "grow:stmt", "grow:wrap", "grow:enumvalue", "grow:structelem", "grow:type", "grow:task",
+IsGrow(e) == e[1] \in {"grow:inout", "grow:var", "grow:const", "grow:stmt", "grow:wrap", "grow:enumvalue", "grow:structelem", "grow:type", "grow:task",
                        "grow:positionalcall", "grow:emptycall", "grow:global", "grow:pou"}
 
 Init == unit = Base /\ edits = <<>>
@@ -377,7 +387,7 @@ LabelTargets(e) ==
     [] e[1] = "plant:InvocationNoMix"       -> {"<call>"}
     [] e[1] = "plant:InputsDeclared"        -> {"<call>", "bogus"}
     [] e[1] = "plant:PositionalArity"       -> {"<call>"}
-    [] e[1] = "plant:OutputsDeclared"       -> {"<call>", "nothere"}
+    [] e[1] = "plant:OutputsDeclared"       -> {"<call>", e[4]}
     [] e[1] = "plant:TaskDefined"           -> {"TX", e[2]}
     [] e[1] = "plant:ConstInitialised"      -> {"nc", "k"}
     [] e[1] = "plant:ConstNotFB"            -> {"nf", "CALLEE"}
